@@ -101,4 +101,19 @@ func init() {
 	reg(&HarnessSpec{Prop: "C09", Name: "C09Scoping",
 		What:    "real Parse on 2 interfaces x 2 methods with notation slots at both interfaces and at three methods, instantiated with ON/OFF spellings of each of the six toggle families and with :skip/:map/:conv/:literal lists on several methods: effective toggle of every method = interface default overridden by the method's own notations (reference fold written from the README); all other toggles at their defaults; per-method lists contain exactly the method's own notations (append-aliasing across by-value Options copies included); :skip observed through ShouldSkip under the method's effective case rule (a later :case overrides the rule a pattern was compiled under)",
 		Bounds:  "skeleton scope; 7 slots with 2..6 menu entries each x 6 toggle families (28800 combinations)", Assumes: []string{aT, aSlots}})
+
+	// ---------------------------------------------------------------- C14 / C08 / C10 / C07 / C01 (mode T)
+	whatBad := "real front half (NewParser, Parse, parseNotationInComments, lookupConverterFunc, lookupManipulatorFunc, resolveConverters, CreateFunctions with the whole assignment builder, FuncToString) on skeleton bad for every (mal)formed notation of a 96-entry menu on a method (missing/invalid arguments, unknown names, wrongly shaped converters and hooks: 0/1 parameters, wrong result shapes, wrong operand types, unexported or unknown imported functions, $n out of range, bad paths, bad regexps, :reverse without :style arg, unknown notations) and misplaced notations on the interface, combined with toggles on both methods: no Go run-time panic on any path; either success with exactly one function per method whose text parses and TYPE-CHECKS inside the skeleton package (native go/types judge), or failure with a message on stderr starting with file:line:column"
+	for _, pr := range []string{"C14", "C10", "C07", "C01"} {
+		reg(&HarnessSpec{Prop: pr, Name: "C14BadNotation", What: whatBad,
+			Bounds:  "skeleton bad: 96 method-level x 4 x 7 combinations + 11 interface-level x 4 x 7",
+			Assumes: []string{aT, aSlots, "the Go type checker (go/types) on the spliced package is the per-path judge of 'compiles'; unused imports are ignored (pruned by goimports)"}})
+	}
+	reg(&HarnessSpec{Prop: "C14", Name: "C14OutIsInput", What: "-out naming the input file: rejected with a diagnostic naming the file, no nil dereference", Bounds: "skeleton basic", Assumes: []string{aT}})
+	for _, pr := range []string{"C08", "C01"} {
+		reg(&HarnessSpec{Prop: pr, Name: "C08CreateFunction",
+			What:    "real CreateFunction/createVar/MethodEntry accessors on 120 method signatures (source/destination pointer or value x error x 0..3 extra arguments x named/unnamed x local/imported) with :style/:reverse/:recv symbolic: rejected exactly for reverse + extra arguments and for a receiver of an imported type; otherwise Src/Dst/extra-argument names (declared, or src/dst/argN, swapped under reverse, receiver override), pointer-ness and package-qualified type expressions, RetError and style are the documented ones (expectations computed from go/types facts), and the emitted function type-checks in the package",
+			Bounds:  "skeleton sig (120 methods) x 2^3 option valuations (reverse only with :style arg, as enforced at notation parsing)",
+			Assumes: []string{aT}})
+	}
 }
